@@ -89,6 +89,8 @@ var Variants = map[string][]Node{
 		{K: "groupBy", Star: true},
 		{K: "groupBy", Star: true, Excl: []string{"h"}},
 		{K: "groupBy", On: []string{"h"}, ByName: true},
+		// two explicit dimensions: the node's sorted tag-name slice is shared by every point it emits
+		{K: "groupBy", On: []string{"p", "h"}},
 	},
 }
 
@@ -179,6 +181,41 @@ var Seqs = map[string][]Pt{
 }
 
 var SeqNames = []string{"ints", "mixed", "floats", "single", "ooo"}
+
+// CarrySeqs are three consecutive windows for batch inputs in which every group's
+// next batch starts with what the previous batch of that group ended with (also
+// after where(p == 'x') or an eval), every point satisfies "v" > 1 and every batch
+// has an odd number of points: a per-batch memory (changeDetect, derivative,
+// stateCount, stateDuration, sample) that survives into the next batch shows.
+var CarrySeqs = [][]Pt{
+	{
+		pt("m", "a", "x", 0, F{"v": iv(2)}),
+		pt("m", "b", "x", 0, F{"v": fv(2)}),
+		pt("m", "a", "y", 0, F{"v": iv(2)}),
+		pt("m", "b", "y", 1, F{"v": fv(2)}),
+		pt("m", "a", "x", 1, F{"v": iv(3), "w": iv(1)}),
+		pt("m", "b", "x", 2, F{"v": fv(3)}),
+	},
+	{
+		pt("m", "a", "x", 0, F{"v": iv(3), "w": iv(1)}),
+		pt("m", "b", "x", 0, F{"v": fv(3)}),
+		pt("m", "a", "y", 1, F{"v": iv(4)}),
+		pt("m", "b", "y", 1, F{"v": fv(3)}),
+		pt("m", "a", "x", 2, F{"v": iv(4)}),
+		pt("m", "b", "x", 2, F{"v": fv(4)}),
+	},
+	{
+		pt("m", "a", "x", 0, F{"v": iv(4)}),
+		pt("m", "b", "x", 0, F{"v": fv(4)}),
+		pt("m", "a", "x", 1, F{"v": iv(4)}),
+		pt("m", "b", "y", 2, F{"v": fv(2)}),
+		pt("m", "a", "y", 2, F{"v": iv(2)}),
+		pt("m", "b", "x", 2, F{"v": fv(4)}),
+	},
+}
+
+// PerBatchMemory lists the kinds that keep a memory inside a batch and must forget it at the next one.
+var PerBatchMemory = map[string]bool{"changeDetect": true, "derivative": true, "stateCount": true, "stateDuration": true, "sample": true}
 
 // Field/tag alphabets of random sequences.
 var randFields = []F{
